@@ -248,7 +248,7 @@ func (p *Program) VerifyFunc(key string) (u *Unit, err error) {
 			u.obligeCase(name, key, "post", e.Label, p.pos(fn.Pos()), e.Src, r.guard, t, rec, k)
 		}
 	}
-	u.strSMT = u.usesStrOps
+	u.strSMT = u.usesStrOps || fc.ExactStrings
 	return u, nil
 }
 
